@@ -645,7 +645,9 @@ class PageTemplate(BaseRenderer):
                 return str(getattr(img, parameter))
         except KeyError: pass
 
-        return '&%s-%s;' % (filename, parameter)
+        # Not the placeholder of an image: document text that merely looks
+        # like one stays as it was written (escaped)
+        return m.group(0)
 
 
 # Set Renderer variable so that plastex will know how to load it
